@@ -473,6 +473,7 @@ func (s *Sim) step() {
 	}
 	now := time.Since(s.t0)
 	h := s.res.TraceHash
+	now = now.Truncate(time.Microsecond) // (the simulated network places deliveries at sub-microsecond offsets that identify the stream)
 	for _, v := range [...]uint64{uint64(t.ID), uint64(int64(t.at)), uint64(now), uint64(g.start), uint64(g.stall)} {
 		h = (h ^ v) * 0x100000001b3
 		h ^= h >> 29
